@@ -28,7 +28,8 @@ def optNat (s : String) : Option Nat := if s == "-" then none else s.toNat?
 def parseRec (s : String) : Option Rec :=
   match fields s with
   | [id, seq, u4, u6, m, size, pf, sig] =>
-    some { id := sKey id, seq := nat! seq, udp4 := optNat u4, udp6 := optNat u6, udp6Mapped := m == "1",
+    some { id := sKey id, seq := nat! seq, udp4 := optNat u4,
+           udp6 := if u6 == "-" then none else some (beNat (hex! u6)), udp6Mapped := m == "1",
            size := nat! size, passesFilter := pf == "1", sig := nat! sig }
   | _ => none
 
@@ -37,12 +38,15 @@ def parseRecs (s : String) : List Rec :=
 
 def parseAddr (s : String) : Addr :=
   match s.splitOn "~" with
-  | [f, n] => { v6 := f == "6", sock := nat! n }
+  | [f, n] => if f == "6" then { v6 := true, sock := beNat (hex! n) } else { v6 := false, sock := nat! n }
   | _ => { v6 := false, sock := 0 }
 
-def showAddr (a : Addr) : String := s!"{if a.v6 then "6" else "4"}~{a.sock}"
+/-- IPv4 sockets in decimal, IPv6 sockets as 36 hex digits (`ip * 65536 + port`). -/
+def showAddr (a : Addr) : String :=
+  if a.v6 then s!"6~{toHex (beBytes 18 a.sock)}" else s!"4~{a.sock}"
 
-def showIp (a : Addr) : String := s!"{if a.v6 then "6" else "4"}~{a.ip}"
+def showIp (a : Addr) : String :=
+  if a.v6 then s!"6~{toHex (beBytes 16 a.ip)}" else s!"4~{a.ip}"
 
 def parseDists (s : String) (sep : String) : List Nat :=
   if s == "-" then [] else (s.splitOn sep).map nat!
